@@ -133,18 +133,31 @@ def uRun : UEnv → UI → List String → String
     | some (_, .err e) => s!"ERR {e.name}"
     | some (_, .panic p) => s!"PANIC {p}"
 
-/-- decimal text like `-77.25` or `39` as a Float -/
+/-- decimal text as the harness' `str::parse::<f64>` reads it, for the forms the operation files use: `12`, `-3.25`, `1e308`, `1e-320`, `inf`,
+`-inf`, `NaN` (digits `N`, a scale and an exponent go through `Float.ofScientific`, i.e. correctly rounded like Rust's parser) -/
 def parseFloat (s : String) : Option Float :=
+  if s == "inf" then some (1.0 / 0.0) else if s == "-inf" then some (-1.0 / 0.0) else if s == "NaN" then some (0.0 / 0.0) else
   let neg := s.startsWith "-"
   let t := if neg then (s.drop 1).toString else s
-  match t.splitOn "." with
-  | [a] => a.toNat?.map (fun n => let x := Float.ofNat n; if neg then -x else x)
-  | [a, b] => match a.toNat?, b.toNat? with
-    | some x, some y =>
-      let v := Float.ofNat x + Float.ofScientific y true b.length
+  let (mant, ex) : String × Option Int := match t.splitOn "e" with
+    | [m] => (m, some 0)
+    | [m, e] => (m, e.toInt?)
+    | _ => (t, none)
+  match ex with
+  | none => none
+  | some k =>
+    let digits : Option (Nat × Nat) := match mant.splitOn "." with
+      | [a] => a.toNat?.map (fun n => (n, 0))
+      | [a, b] => match a.toNat?, b.toNat? with
+        | some _, some _ => (a ++ b).toNat?.map (fun n => (n, b.length))
+        | _, _ => none
+      | _ => none
+    match digits with
+    | none => none
+    | some (n, sc) =>
+      let e : Int := k - (sc : Int)
+      let v := if e ≥ 0 then Float.ofScientific n false e.toNat else Float.ofScientific n true (-e).toNat
       some (if neg then -v else v)
-    | _, _ => none
-  | _ => none
 
 def runOp (line : String) : String :=
   match line.trimAscii.toString.splitOn " " |>.filter (· ≠ "") with
